@@ -39,6 +39,16 @@ def _imprecise_atoms(d):
     return bad
 
 
+def _structured_atoms(d):
+    bad = []
+
+    def fn(a):
+        if a[0] in ("alignup", "prod", "gamma", "b2i"):
+            bad.append(a)
+    walk_atoms(d, fn)
+    return bad
+
+
 class Checker:
     def __init__(self, tu, rec, prop):
         self.tu = tu
@@ -83,7 +93,13 @@ class Checker:
             if has_unknown(d) or (imprecise_undecided and _imprecise_atoms(d)):
                 undecided = (f, g, w)
                 continue
-            # a non-zero affine form over free state atoms is non-zero for some state
+            # a non-zero affine form over free state atoms is non-zero for some state; a residue with rounding / product
+            # atoms over the same unknowns needs a witness state (cv/model.py), otherwise it is undecided
+            if _structured_atoms(d):
+                from .model import find_model
+                if find_model(f, d, want="nonzero") is None:
+                    undecided = (f, g, w)
+                    continue
             verdict = False
             bad_case = (f, g, w)
             break
